@@ -20,8 +20,10 @@ HistSim::HistSim(const Options& o, Transcript* t, bool real)
     ds.alloc = o.shareAlloc ? 0 : d;
     ds.model = Val::null();
     ds.model.id = newId();
+    if (o.useDefaultAlloc)
+      ds.alloc = -1;
     if (real_)
-      ds.doc = new JsonDocument(allocs_[size_t(ds.alloc)].get());
+      ds.doc = o.useDefaultAlloc ? new JsonDocument() : new JsonDocument(allocs_[size_t(ds.alloc)].get());
     Ref r;
     r.doc = d;
     r.node = ds.model.id;
@@ -1675,7 +1677,7 @@ void HistSim::opDoc(const Op& op, size_t ix) {
     int oldAlloc = D.alloc;
     D.model.clearTo(K::Null);
     dropDocRefs(d);
-    D.alloc = opt.shareAlloc ? 0 : d;
+    D.alloc = opt.useDefaultAlloc ? -1 : opt.shareAlloc ? 0 : d;
     D.ovf = false;
     if (real_) {
       startFaults(op);
@@ -1683,7 +1685,7 @@ void HistSim::opDoc(const Op& op, size_t ix) {
       D.doc = nullptr;
       if (!sharedBefore && oldAlloc >= 0)
         allocs_[size_t(oldAlloc)]->expectEmpty("C06:leak-at-destruction", "after ~JsonDocument()");
-      D.doc = new JsonDocument(allocs_[size_t(D.alloc)].get());
+      D.doc = D.alloc < 0 ? new JsonDocument() : new JsonDocument(allocs_[size_t(D.alloc)].get());
       D.leaky = false;
     }
   } else if (what == "set") {  // d.set(reference)  /  d = reference
